@@ -61,9 +61,10 @@ type Walker struct {
 	atCall map[*ssa.MakeClosure]bool
 	dry    bool
 	// condAltFacts memo
-	altMemo map[interface{}][]FactT
-	infMemo map[infKey]bool
-	symOK   bool // constAlts: values that are not small constants are named by their terms
+	altMemo  map[interface{}][]FactT
+	infMemo  map[infKey]bool
+	symOK    bool // constAlts: values that are not small constants are named by their terms
+	recvMemo map[*Frame]recvRes
 }
 
 type infKey struct {
@@ -301,6 +302,12 @@ func (w *Walker) walk(fr *Frame, visit func(fr *Frame)) {
 			}
 		default:
 			nfr.Call = e.Site.(ssa.CallInstruction)
+			// an implementation the value cannot be on this chain is not entered
+			if nfr.Call.Common().IsInvoke() {
+				if _, feasible := w.recvTypeFacts(nfr); !feasible {
+					continue
+				}
+			}
 		}
 		w.walk(nfr, visit)
 	}
@@ -730,6 +737,12 @@ func (w *Walker) FactsAt(fr *Frame, site ssa.Instruction) []FactT {
 	for f := fr; f != nil; {
 		if cur != nil {
 			for _, ft := range w.blockFacts(f, cur.Block(), 0) {
+				add(ft)
+			}
+		}
+		// entered through an interface call: what the dynamic type of the value implies
+		if rf, _ := w.recvTypeFacts(f); len(rf) > 0 {
+			for _, ft := range rf {
 				add(ft)
 			}
 		}
